@@ -8,7 +8,7 @@
 From Coq Require Import String Ascii.
 From Coq Require Import ZArith List Bool.
 From LasV Require Import Lib.Base Lib.Layout Gen.GenFormatBits Gen.GenDims Gen.GenHeaderLayout Gen.GenC02
-  Spec.Asprs Spec.AsprsPoints.
+  Spec.Asprs Spec.AsprsPoints Model.SubField.
 Import ListNotations.
 Open Scope list_scope.
 Open Scope Z_scope.
@@ -165,6 +165,34 @@ Definition spec_masks (f : Z) : list (string * string * Z) :=
                                     | _ => []
                                     end) its
   | None => []
+  end.
+
+(* the specification's bit range of a sub-field, and the check that laspy's mask semantics (Model/SubField.v:
+   get = (b & m) >> lsb, put = clear-then-or) is the specification's "bits lo..hi of the byte", for every byte and value *)
+Definition spec_bit_range (f : Z) (composed name : string) : option (Z * Z) :=
+  match spec_items f with
+  | Some its =>
+      match find (fun it => String.eqb (fst it) composed) its with
+      | Some (_, TBits subs) =>
+          match find (fun s => String.eqb (fst (fst s)) name) subs with
+          | Some (_, lo, hi) => Some (lo, hi)
+          | None => None
+          end
+      | _ => None
+      end
+  | None => None
+  end.
+
+Definition sf_spec_ok (e : Z * string * string * Z) : bool :=
+  let '(fmt, name, composed, m) := e in
+  match spec_bit_range fmt composed name with
+  | Some (lo, hi) =>
+      let n := hi - lo + 1 in
+      (m =? mask_of_range lo hi) && (sf_max m =? 2 ^ n - 1)
+      && forall_below 256 (fun b =>
+           (sf_get m b =? (b / 2 ^ lo) mod 2 ^ n)
+           && forall_below (2 ^ n) (fun v => sf_put m b v =? b - ((b / 2 ^ lo) mod 2 ^ n) * 2 ^ lo + v * 2 ^ lo))
+  | None => false
   end.
 
 (* extra-dimension element types: the writer's table (extradims._allowed_extra_dims_types) and what the reader's
